@@ -69,3 +69,13 @@ func For(s string) io.Reader {
 	last = "strings.Reader"
 	return strings.NewReader(s)
 }
+
+// Twice calls explain on the same statement twice and returns the first text; when the second differs (Explain modified the
+// tree, or kept state from its first call) a marker line is appended, which no model, spec or oracle accepts.
+func Twice(explain func() string) string {
+	a := explain()
+	if b := explain(); b != a {
+		return a + "!!UNSTABLE second Explain of the same statement differs from the first\n"
+	}
+	return a
+}
